@@ -11,7 +11,9 @@ reset U=<k,..> P=<k:v,..> C=<k:v|k:x,..> F=<k,..> O=<n>   new TState (block-leve
                                                          x = deleted), parent storage P, storage
                                                          fails on F, TState.ops = O; universe U
 view *            | view <k:perm,..> | view -             NewView with CompletePermissions / state.Keys
-get k | insert k v | remove k | opindex | rollback n | commit
+get k | insert k v | remove k | opindex | rollback n | commit | keyops
+view2 <scope> | swap                                      a second view open on the same TState
+txkeys <txid> <decl>;..;<sponsor decl> | simhas k p
 has p r | knew | kadd k p | khas k p | kget k | statekeys <decl>;<decl>;..
 valid k | maxchunks k | numchunks n | numchunksint i | verify mks mvc k | verifyvalue k n
 encode k i | encodechunks k c | decodechunks k
@@ -26,6 +28,7 @@ structure St where
   ts : TS := TS.new
   storage : Key → StoRes := fun _ => .notFound
   view : Option View := none
+  other : Option View := none      -- a second view open on the same TState (`view2` / `swap`)
   keyset : KeySet := KeySet.empty
 
 def parseVal (s : String) : Option (List UInt8) :=
@@ -33,8 +36,11 @@ def parseVal (s : String) : Option (List UInt8) :=
   else parseHex s
 
 /-- long values are abbreviated the same way on the Go side -/
+def checksum (v : List UInt8) : Nat :=
+  v.foldl (fun h b => (h * 31 + b.toNat + 1) % 4294967296) 7
+
 def showVal (v : List UInt8) : String :=
-  if v.length ≤ 100 then toHex v else s!"L{v.length}:{toHex (v.take 4)}"
+  if v.length ≤ 300 then toHex v else s!"L{v.length}:{checksum v}"
 
 def splitList (s : String) : List String := (s.splitOn ",").filter (· ≠ "")
 
@@ -118,10 +124,25 @@ def showChanged (us : List Key) (ts : TS) : String :=
       | some none => "N"
       | none => "_"))
 
+/-- a Go view holds a `*TState`: before every operation the model view is given the current
+shared `TState` (what other views committed since it was opened). -/
 def viewOp (s : St) (f : View → View × Out) : St × String :=
   match s.view with
   | none => (s, "bad-op")
-  | some v => let (v', o) := f v; ({ s with view := some v' }, showOut o)
+  | some v => let (v', o) := f { v with ts := s.ts }; ({ s with view := some v' }, showOut o)
+
+def showMapNat (us : List Key) (m : GoMap Nat) : String :=
+  let es := us.filterMap fun k => (m k).map fun n => toHex k ++ "=" ++ toString n
+  if es.isEmpty then "-" else ",".intercalate es
+
+def parseDecls (ds : String) : Option (List (List (Key × Perm))) :=
+  allSome (((ds.splitOn ";").filter (· ≠ "")).map fun d => if d == "_" then some [] else parseDecl d)
+
+def showKeySet (decls : List (List (Key × Perm))) (m : KeySet) : String :=
+  let ks := (decls.flatten.map (·.1)).eraseDups
+  if ks.isEmpty then "empty" else
+    ",".intercalate (ks.map fun k => toHex k ++ ":" ++ (match m k with
+      | some p => toString p.toNat | none => "none"))
 
 def step (s : St) (ws : List String) : St × String :=
   match ws with
@@ -130,13 +151,33 @@ def step (s : St) (ws : List String) : St × String :=
     | some s' => ({ s' with keyset := s.keyset }, "ok")
     | none => (s, "bad-op")
   | ["view", sc] =>
-    if sc == "*" then ({ s with view := some (s.ts.newView fullAccess s.storage) }, "ok")
+    if sc == "*" then ({ s with view := some (s.ts.newView fullAccess s.storage), other := none }, "ok")
     else match parseDecl (if sc == "-" then "" else sc) with
       | some decl =>
         -- a state.Keys literal: later entries of the same key overwrite (the harness never repeats)
         let m : KeySet := fun k => decl.lookup k
-        ({ s with view := some (s.ts.newView m.has s.storage) }, "ok")
+        ({ s with view := some (s.ts.newView m.has s.storage), other := none }, "ok")
       | none => (s, "bad-op")
+  | ["view2", sc] =>
+    -- open a second view on the same TState; it becomes the current one
+    let mk : Option View :=
+      if sc == "*" then some (s.ts.newView fullAccess s.storage)
+      else match parseDecl (if sc == "-" then "" else sc) with
+        | some decl => let m : KeySet := fun k => decl.lookup k; some (s.ts.newView m.has s.storage)
+        | none => none
+    match mk, s.view with
+    | some v, some cur => ({ s with view := some v, other := some cur }, "ok")
+    | _, _ => (s, "bad-op")
+  | ["swap"] =>
+    match s.view, s.other with
+    | some a, some b => ({ s with view := some b, other := some a }, "ok")
+    | _, _ => (s, "bad-op")
+  | ["keyops"] =>
+    match s.view with
+    | none => (s, "bad-op")
+    | some v =>
+      let pend := (s.keyU.filter fun k => (v.pendingChangedKeys k).isSome).length
+      (s, s!"a:{showMapNat s.keyU v.allocates} w:{showMapNat s.keyU v.writes} p={pend}")
   | ["get", k] =>
     match parseHex k with
     | some k => viewOp s (fun v => v.step (.get k))
@@ -158,8 +199,8 @@ def step (s : St) (ws : List String) : St × String :=
     match s.view with
     | none => (s, "bad-op")
     | some v =>
-      let ts := v.commit.ts
-      ({ s with ts := ts, view := none }, s!"ops={ts.ops} " ++ showChanged s.keyU ts)
+      let ts := ({ v with ts := s.ts }).commit.ts
+      ({ s with ts := ts, view := s.other, other := none }, s!"ops={ts.ops} " ++ showChanged s.keyU ts)
   -- state/keys.go
   | ["has", p, r] =>
     match parsePerm p, parsePerm r with
@@ -179,16 +220,27 @@ def step (s : St) (ws : List String) : St × String :=
     | some k => (s, match s.keyset k with | some p => toString p.toNat | none => "none")
     | none => (s, "bad-op")
   | ["statekeys", ds] =>
-    match allSome (((ds.splitOn ";").filter (· ≠ "")).map parseDecl) with
+    match parseDecls ds with
     | some decls =>
       match stateKeys decls with
       | none => (s, "err")
-      | some m =>
-        let ks := (decls.flatten.map (·.1)).eraseDups
-        (s, if ks.isEmpty then "empty" else
-          ",".intercalate (ks.map fun k => toHex k ++ ":" ++ (match m k with
-            | some p => toString p.toNat | none => "none")))
+      | some m => (s, showKeySet decls m)
     | none => (s, "bad-op")
+  -- chain/transaction.go: Transaction.StateKeys on a real transaction; the declarations of
+  -- the actions in order, the sponsor's last; `_` = an empty declaration
+  | ["txkeys", _txid, ds] =>
+    match parseDecls ds with
+    | some decls =>
+      match stateKeys decls with
+      | none => (s, "err")
+      | some m => (s, showKeySet decls m)
+    | none => (s, "bad-op")
+  | ["simhas", k, p] =>
+    match parseHex k, parsePerm p with
+    | some k, some p =>
+      let (m, r) := simulatedHas KeySet.empty k p
+      (s, s!"{r} {match m k with | some q => toString q.toNat | none => "none"}")
+    | _, _ => (s, "bad-op")
   -- keys/keys.go
   | ["valid", k] =>
     match parseHex k with
